@@ -664,10 +664,67 @@ theorem setCursor_inv {v : Variant} {s : Sess} {c : Option Cursor} (hi : SessInv
         simp only [Bool.or_eq_false_iff] at hmod
         exact ⟨hmod.1.1, fun _ => ⟨hmod.1.2, hmod.2⟩⟩
 
+/-- SetEncodings again (repaired code): whichever way the cursor capability changes, every pixel
+whose expectation changes is marked modified -/
+theorem setEncodings_inv {v : Variant} {s : Sess} {id : Nat} {k : ClientKind} (hv : v.setencFixed = true)
+    (hi : SessInv v s) : SessInv v (setEncodings v s id k) := by
+  unfold setEncodings
+  refine ⟨⟨hi.1.1, nodup_map_clients _ (by intro c; split <;> rfl) hi.1.2⟩, ?_⟩
+  intro d' hd'
+  obtain ⟨d, hd, rfl⟩ := List.mem_map.mp hd'
+  obtain ⟨hpsz, hpix⟩ := hi.2 d hd
+  by_cases hid : (d.id == id) = true
+  · simp only [hid, if_true]
+    refine ⟨hpsz, fun x y hx hy => ?_⟩
+    simp only [hv, Bool.true_and]
+    -- the two expectations, before and after
+    have hplain : ∀ c' : Client, c'.curX = d.curX → c'.curY = d.curY →
+        (c'.shape = true ∨ (Rgn.ofRect s.scr.w s.scr.h (cursorBox s.scr d.curX d.curY)).mem s.scr.w x y = false) →
+        expectedPx v s.scr c' x y = s.scr.fb[y * s.scr.w + x]? := by
+      intro c' e1 e2 h
+      rcases h with h | h
+      · exact expectedPx_plain hi.1.1 (Or.inl h)
+      · exact expectedPx_plain hi.1.1 (Or.inr (Or.inr fun cur hcur => by
+          rw [e1, e2]; exact not_inBox_of_not_mem hcur hx hy h))
+    cases hmark : ((k != ClientKind.raw) || d.shape) with
+    | false =>
+      -- raw -> raw: nothing about the picture changes
+      simp only [Bool.or_eq_false_iff] at hmark
+      simp only [hmark.1, Bool.false_eq_true, if_false]
+      rcases hpix x y hx hy with h | h
+      · exact Or.inl h
+      · right
+        rw [h]
+        congr 1
+        symm
+        exact expectedPx_congr rfl rfl rfl rfl rfl (SameLook.refl _ _ _ _) hmark.2.symm rfl rfl
+    | true =>
+      simp only [hmark, if_true]
+      rw [Rgn.mem_or _ _ hx hy]
+      cases h1 : d.modified.mem s.scr.w x y with
+      | true => left; rfl
+      | false =>
+        cases h2 : (Rgn.ofRect s.scr.w s.scr.h (cursorBox s.scr d.curX d.curY)).mem s.scr.w x y with
+        | true => left; rfl
+        | false =>
+          right
+          rcases hpix x y hx hy with h | h
+          · rw [h1] at h; simp at h
+          · rw [h, hplain d rfl rfl (Or.inr h2)]
+            congr 1
+            symm
+            apply hplain
+            · rfl
+            · rfl
+            · exact Or.inr h2
+  · have : (d.id == id) = false := by simpa using hid
+    simp only [this, Bool.false_eq_true, if_false]
+    exact ⟨hpsz, hpix⟩
+
 /-! ### whole histories -/
 
-theorem applyOp_inv {v : Variant} {s s' : Sess} {op : Op} (hi : SessInv v s) (h : applyOp v s op = some s') :
-    SessInv v s' := by
+theorem applyOp_inv {v : Variant} {s s' : Sess} {op : Op} (hv : v.setencFixed = true) (hi : SessInv v s)
+    (h : applyOp v s op = some s') : SessInv v s' := by
   cases op with
   | client id k t =>
     simp only [applyOp] at h
@@ -676,6 +733,10 @@ theorem applyOp_inv {v : Variant} {s s' : Sess} {op : Op} (hi : SessInv v s) (h 
     · rename_i hf
       simp at h; subst h
       exact newClient_inv hi (by simpa using hf)
+  | setenc id k =>
+    simp only [applyOp] at h
+    simp at h; subst h
+    exact setEncodings_inv hv hi
   | ptr id x y b =>
     simp only [applyOp] at h
     split at h <;> (simp at h; subst h)
@@ -712,14 +773,14 @@ theorem applyOp_inv {v : Variant} {s s' : Sess} {op : Op} (hi : SessInv v s) (h 
     simp only [] at e; subst e
     exact pump_inv hi hp
 
-theorem runOps_inv {v : Variant} {s s' : Sess} {ops : List Op} (hi : SessInv v s)
+theorem runOps_inv {v : Variant} {s s' : Sess} {ops : List Op} (hv : v.setencFixed = true) (hi : SessInv v s)
     (h : runOps v s ops = some s') : SessInv v s' := by
   induction ops generalizing s with
   | nil => simp [runOps] at h; subst h; exact hi
   | cons op ops ih =>
     simp only [runOps] at h
     obtain ⟨s1, h1, h2⟩ := Option.bind_eq_some_iff.mp h
-    exact ih (applyOp_inv hi h1) h2
+    exact ih (applyOp_inv hv hi h1) h2
 
 theorem sessInv_init {v : Variant} {s : Sess} (hs : s.scr.WF) (hc : s.clients = []) : SessInv v s :=
   ⟨⟨hs, by rw [hc]; exact List.nodup_nil⟩, by rw [hc]; intro c h; simp at h⟩
